@@ -3,6 +3,7 @@ package main
 import (
 	"fmt"
 	"go/types"
+	"math"
 	"strings"
 
 	"golang.org/x/tools/go/ssa"
@@ -400,6 +401,19 @@ func init() {
 	intrinsics["math.Sqrt"] = func(ex *Exec, st *State, f *Frame, fn FuncV, args []Value, retTo ssa.Value, instr ssa.Instruction) bool {
 		x := args[0].(*Term)
 		return ret(f, retTo, ex.fpResult("(fp.sqrt RNE "+ex.fpOf(x)+")", x.W(), x))
+	}
+
+	// transcendental functions: evaluated natively on constants (compiler-internal table sizing etc.), not modelled symbolically
+	for name, fn := range map[string]func(float64) float64{"math.Log2": math.Log2, "math.Log": math.Log, "math.Log10": math.Log10, "math.Exp": math.Exp} {
+		fn := fn
+		name := name
+		intrinsics[name] = func(ex *Exec, st *State, f *Frame, fv FuncV, args []Value, retTo ssa.Value, instr ssa.Instruction) bool {
+			x := args[0].(*Term)
+			if !x.IsConst() {
+				panic(cutPath{name + " of a symbolic value"})
+			}
+			return ret(f, retTo, ex.tb.Const(math.Float64bits(fn(math.Float64frombits(x.c))), 64))
+		}
 	}
 
 	// ---- runtime no-ops
